@@ -124,12 +124,11 @@ PROPS['C11'] = {
         ('geo', 'c11_private.rs', r'^c11_k_nearest_endpoint', 'complete', 'quick'),
         ('geo', 'c02.rs', r'^c02_k_line_line$', 'complete', 'quick'),
         ('geo', 'c11.rs', r'^c11_k_classification_lat5$', 'complete', 'thorough'),
-        ('geo', 'c11.rs', r'^c11_k_proper_point_in_envelopes$', 'complete', 'thorough'),
     ],
     'trusted': ['assumed contract of robust::orient2d (exact sign), stubbed by the shared oracle on the lattice',
                 'loop-free harnesses over the whole lattice |c| <= 3 (quick) / 5 (thorough) of integer-valued f64 coordinates: complete for that domain only'],
     'undecided_clauses': [
-        'proper point within a few ulps of the true crossing (float error analysis)',
+        'proper point within a few ulps of the true crossing, and its containment in both envelopes through the real proper_intersection arithmetic (harness c11_k_proper_point_in_envelopes kept, not registered: float products / divisions time out at 900 s)',
         'inputs off the integer lattice (decided only through the opaque-scalar argument of C03)',
         'zero-length segments (excluded by precondition: line_intersection returns a zero-length Collinear for a point on a segment)',
     ],
